@@ -88,6 +88,17 @@ func (m *monitor) beforeRemoveDir(path string) {
 	if held > 0 {
 		m.violate("C02/table-deleted-while-reader-outstanding", "table %s is being deleted while %d readers from open snapshots are outstanding", name, held)
 	}
+	if m.family != nil {
+		// a table of the family's current version (e.g. committed a moment ago by a writer whose pending mark was
+		// just removed) must never be deleted
+		snap := m.family.GetSnapshot()
+		for _, fm := range snap.GetCurrent().GetAllFiles() {
+			if version.Table(fm.GetFileNumber()) == name {
+				m.violate("C02/table-deleted-while-current-version-names-it", "table %s is being deleted although the family's current version names it", name)
+			}
+		}
+		snap.Close()
+	}
 	if m.rollupOn && m.family != nil {
 		// no rollup job runs in this workload, so every rollup mark is still pending
 		snap := m.family.GetSnapshot()
@@ -136,6 +147,8 @@ type cfg struct {
 	Flushes           int // per flusher
 	DelayUs           int
 	Keys              int
+	Preload           int // tables flushed before the concurrent phase (big family: wide cleanup windows)
+	Cleaners          int // extra goroutines running the obsolete file cleanup
 }
 
 func runChild() {
@@ -148,6 +161,11 @@ func runChild() {
 		TTLms: []int{0, 1, 3600_000}[rnd.Intn(3)], Rollup: rnd.Intn(3) == 0, Threshold: 2 + rnd.Intn(3),
 		MaxFileSize: []uint32{0, 60, 300}[rnd.Intn(3)], Flushes: 6 + rnd.Intn(8), DelayUs: []int{0, 50, 300, 1500}[rnd.Intn(4)],
 		Keys: 6 + rnd.Intn(12),
+	}
+	if idx%6 == 5 {
+		// big family: many tables and no compaction, several cleanup goroutines racing with flush commits
+		c.Preload, c.Cleaners, c.Threshold, c.Rollup = 1200, 4, 1<<30, false
+		c.Flushers, c.Flushes, c.Readers = 3, 60, 4
 	}
 	res := &runResult{Run: idx, Config: fmt.Sprintf("%+v", c), Counters: map[string]int{}}
 	mon := &monitor{snapFiles: map[int]map[string]bool{}, readerHeld: map[string]int{}, counters: map[string]int{}, rollupOn: c.Rollup}
@@ -165,6 +183,7 @@ func runChild() {
 		delayMu.Unlock()
 		time.Sleep(time.Duration(d) * time.Microsecond)
 	}
+	seam.NoFsync = true // the fsync(2) of manifest/table writers is irrelevant here and dominates big-family runs
 	seam.InstallKV(seam.Direct{}, &seam.Observer{
 		AfterListDir:    func(string, []string) { delay() }, // between listing and live-set collection
 		BeforeRemoveDir: func(p string) { mon.beforeRemoveDir(p); delay() },
@@ -243,6 +262,32 @@ func runChild() {
 	// flushers
 	committed := map[uint32]uint32{} // token -> key
 	var commMu sync.Mutex
+	var preloadToks []int // committed before the history starts: part of every snapshot, not part of the history
+	for i := 0; i < c.Preload; i++ {
+		key := keys[i%len(keys)]
+		tok := atomic.AddUint32(&nextTok, 1)
+		fl := fam.NewFlusher()
+		err := fl.Add(key, kvtok.Encode([]uint32{tok}, 0))
+		if err == nil {
+			err = fl.Commit()
+		}
+		fl.Release()
+		if err != nil {
+			fatal(dir, res, "preload flush: %v", err)
+		}
+		committed[tok] = key
+		preloadToks = append(preloadToks, int(tok))
+	}
+	for ci := 0; ci < c.Cleaners; ci++ {
+		wg.Add(1)
+		go func() {
+			defer wg.Done()
+			for !stop.Load() {
+				kv.VerifFamilyDeleteObsoleteFiles(fam)
+				mon.count("cleaner_rounds", 1)
+			}
+		}()
+	}
 	for fi := 0; fi < c.Flushers; fi++ {
 		flushWG.Add(1)
 		wg.Add(1)
@@ -343,7 +388,16 @@ func runChild() {
 						release()
 						return
 					}
-					record(histOp{Client: ri, Set: flat(first), Call: call, Ret: ret})
+					set := flat(first)
+					if len(preloadToks) > 0 {
+						// every snapshot must contain all preloaded tokens; the history itself is about the later commits
+						if len(set) < len(preloadToks) || set[len(preloadToks)-1] != preloadToks[len(preloadToks)-1] {
+							mon.violate("C02/preloaded-token-missing-in-snapshot", "snapshot %d shows %d tokens, the %d preloaded ones are not all there", id, len(set), len(preloadToks))
+						} else {
+							set = set[len(preloadToks):]
+						}
+					}
+					record(histOp{Client: ri, Set: set, Call: call, Ret: ret})
 					mon.count("snapshots", 1)
 					// hold readers for some keys (what a query does between filtering and loading)
 					type held struct {
